@@ -6,6 +6,12 @@ package health
 // sequence of up to 4 (thorough 5) requests from a small alphabet is served by ONE real server
 // instance (token configured, all groups enabled); every request that does not present the valid
 // token must get 401 and reach no provider, whatever was served before it.
+//
+// The same histories (up to 3, thorough 4 requests) run against a server configured with each of
+// the non-empty but unusable token_hash values of c24BuildShapes: there no token is the valid one,
+// so EVERY request of the history ("V"/"Vq", which present the token the hash was meant for,
+// included) must get 401 and reach no provider -- in particular a refused token must not be
+// remembered by the token cache and accepted on a later request.
 
 import (
 	"fmt"
@@ -16,6 +22,7 @@ import (
 
 type c24Hist struct {
 	History []string `json:"history"`
+	Shape   int      `json:"hash_shape,omitempty"` // index into c24Shapes, 0 = well-formed hash of the token
 }
 
 var c24HistAlphabet = map[string]string{
@@ -27,9 +34,9 @@ var c24HistAlphabet = map[string]string{
 	"N":  "GET /agents HTTP/1.1\r\nHost: a\r\n\r\n",
 }
 
-func c24HistRun(r *vmc.Result, hist []string) {
+func c24HistRun(r *vmc.Result, shape int, hist []string) {
 	rec := &c24Rec{}
-	s := c24NewServer(c24FlagToken|c24FlagPprof|c24FlagDashboard|c24FlagRemote, rec)
+	s := c24NewServer(c24FlagToken|c24FlagPprof|c24FlagDashboard|c24FlagRemote, shape, rec)
 	h := s.Handler()
 	for i, ev := range hist {
 		before := rec.calls.Load() + rec.stats.Load()
@@ -39,58 +46,82 @@ func c24HistRun(r *vmc.Result, hist []string) {
 			return
 		}
 		after := rec.calls.Load() + rec.stats.Load()
-		valid := strings.HasPrefix(ev, "V")
-		if !valid {
+		valid := shape == 0 && strings.HasPrefix(ev, "V")
+		switch {
+		case shape != 0:
+			name, class := c24Shapes[shape].Name, c24Shapes[shape].Class
 			if w.Code != 401 {
-				r.Violate("C24/history/no-valid-token-not-401/"+ev, fmt.Sprintf("request %d (%s) of history %v presented no valid token but was answered %d", i+1, ev, hist, w.Code), c24Hist{hist})
+				r.Violate("C24/history/unusable-hash-not-401/"+class, fmt.Sprintf("token_hash=%s (non-empty, the hash of no token): request %d (%s) of history %v was answered %d", name, i+1, ev, hist, w.Code), c24Hist{hist, shape})
 			}
 			if after != before {
-				r.Violate("C24/history/no-valid-token-action/"+ev, fmt.Sprintf("request %d (%s) of history %v presented no valid token but triggered %d provider call(s)", i+1, ev, hist, after-before), c24Hist{hist})
+				r.Violate("C24/history/unusable-hash-action/"+class, fmt.Sprintf("token_hash=%s (non-empty, the hash of no token): request %d (%s) of history %v triggered %d provider call(s)", name, i+1, ev, hist, after-before), c24Hist{hist, shape})
 			}
-		} else if w.Code == 401 {
+		case !valid:
+			if w.Code != 401 {
+				r.Violate("C24/history/no-valid-token-not-401/"+ev, fmt.Sprintf("request %d (%s) of history %v presented no valid token but was answered %d", i+1, ev, hist, w.Code), c24Hist{hist, 0})
+			}
+			if after != before {
+				r.Violate("C24/history/no-valid-token-action/"+ev, fmt.Sprintf("request %d (%s) of history %v presented no valid token but triggered %d provider call(s)", i+1, ev, hist, after-before), c24Hist{hist, 0})
+			}
+		case w.Code == 401:
 			r.Mark("valid_token_refused", strings.Join(hist[:i+1], ","))
 		}
 	}
 	r.Add("evaluations", 1)
 	r.Add("history_requests", int64(len(hist)))
+	if shape != 0 {
+		r.Add("unusable_hash_histories", 1)
+	}
 }
 
 func c24Histories(r *vmc.Result) {
 	var rp c24Hist
 	if r.Replaying {
-		if r.ReplayInto(&rp) && len(rp.History) > 0 {
-			c24HistRun(r, rp.History)
+		if r.ReplayInto(&rp) && len(rp.History) > 0 && rp.Shape >= 0 && rp.Shape < len(c24Shapes) {
+			c24HistRun(r, rp.Shape, rp.History)
 		}
 		return
 	}
 	keys := []string{"V", "W", "W2", "N", "Wq", "Vq"}
-	maxLen := vmc.Pick(r, 4, 5)
-	var rec func(cur []string)
-	rec = func(cur []string) {
-		if len(cur) > 0 {
-			c24HistRun(r, cur)
-			// non-trivial: a request without valid token follows a valid one, or a wrong token repeats
-			seenV, rep := false, false
-			for i, e := range cur {
-				if strings.HasPrefix(e, "V") {
-					seenV = true
-				}
-				for _, p := range cur[:i] {
-					if p == e && !strings.HasPrefix(e, "V") {
-						rep = true
+	for shape := range c24Shapes {
+		maxLen := vmc.Pick(r, 4, 5)
+		if shape != 0 {
+			maxLen = vmc.Pick(r, 3, 4)
+		}
+		var rec func(cur []string)
+		rec = func(cur []string) {
+			if len(cur) > 0 {
+				c24HistRun(r, shape, cur)
+				// non-trivial: a request without valid token follows a valid one, or a wrong token repeats;
+				// under an unusable hash: a request follows one that presented a (refused) token
+				seenV, rep, afterToken := false, false, false
+				for i, e := range cur {
+					if strings.HasPrefix(e, "V") {
+						seenV = true
+					}
+					if i > 0 && cur[i-1] != "N" {
+						afterToken = true
+					}
+					for _, p := range cur[:i] {
+						if p == e && !strings.HasPrefix(e, "V") {
+							rep = true
+						}
 					}
 				}
+				if shape == 0 && seenV && rep {
+					r.Nontrivial("hist|" + strings.Join(cur, ","))
+				}
+				if shape != 0 && afterToken {
+					r.Nontrivial(fmt.Sprintf("hist-unusable|%s|len%d|V%v", c24Shapes[shape].Name, len(cur), seenV))
+				}
 			}
-			if seenV && rep {
-				r.Nontrivial("hist|" + strings.Join(cur, ","))
+			if len(cur) == maxLen || r.Expired() {
+				return
+			}
+			for _, k := range keys {
+				rec(append(cur, k))
 			}
 		}
-		if len(cur) == maxLen || r.Expired() {
-			return
-		}
-		for _, k := range keys {
-			rec(append(cur, k))
-		}
+		rec(nil)
 	}
-	rec(nil)
 }
